@@ -23,6 +23,7 @@ import (
 	"os"
 	"sort"
 	"strings"
+	"time"
 
 	"github.com/bronlabs/bron-crypto/pkg/base/curves/pairable/bls12381"
 
@@ -323,8 +324,15 @@ func decodeStrings(a *api, f string, pts []any, seed int64, nRandom, nFlip int) 
 		out = append(out, b)
 	}
 	// every value of the flag-carrying byte(s) on a valid encoding and on the identity's
-	for _, b0 := range [][]byte{base, encs[0], encs[len(encs)/2]} {
+	bases := [][]byte{base, encs[0], encs[len(encs)/2]}
+	if costOf(a) >= 8 {
+		bases = bases[:2]
+	}
+	for bi, b0 := range bases {
 		for v := 0; v < 256; v++ {
+			if costOf(a) >= 8 && !(v&0x1f == 0 || v&0x1f == 0x1f || v&0x1f == int(b0[0])&0x1f || v&0xe0 == int(b0[0])&0xe0 && v%7 == bi) {
+				continue // all eight flag-bit combinations on a few payloads
+			}
 			c := append([]byte{}, b0...)
 			c[0] = byte(v)
 			out = append(out, c)
@@ -484,9 +492,40 @@ func nonReduced(a *api, f string, e []byte) [][]byte {
 	return out
 }
 
+// cofactorAboveOne: on the cofactor-1 curves every curve point is in the group, the big.Int
+// subgroup test would only repeat the curve-equation test.
+func cofactorAboveOne(a *api) bool {
+	switch a.name {
+	case "k256", "p256", "pallas", "vesta":
+		return false
+	}
+	return true
+}
+
+func costOf(a *api) int {
+	switch a.name {
+	case "blsg2":
+		return 100
+	case "blsg1", "ed25519p", "x25519p":
+		return 8
+	case "pallas", "vesta":
+		return 2
+	}
+	return 1
+}
+
 // ---- the property's own predicate on the implementation ---------------------------------------
 
 type propFail struct{ key, detail, pcase string }
+
+// isOrder2: the curve25519 point (u,v) = (0,0).
+func isOrder2(a *api, p any) bool {
+	if a.kind != 'm' {
+		return false
+	}
+	inf, x, _, ex, _ := a.coords(p)
+	return !inf && !ex && x.Sign() == 0
+}
 
 func fmtName(f string) string {
 	if f == "c" {
@@ -503,7 +542,11 @@ func propRoundTrip(a *api, f string, p any) *propFail {
 	vh.Safely(func() { canon = a.canon(p) })
 	pcase := fmt.Sprintf("P roundtrip %s %s %s", a.name, f, canon)
 	if pk := vh.Safely(func() { b = a.enc(f, p) }); pk != "" {
-		return &propFail{a.name + "-" + fmtName(f) + "-encode-panic", "encoding panics: " + pk, pcase}
+		key := a.name + "-" + fmtName(f) + "-encode-panic"
+		if isOrder2(a, p) {
+			key = a.name + "-uncompressed-order2-panic"
+		}
+		return &propFail{key, "encoding panics: " + strings.TrimSpace(pk), pcase}
 	}
 	var q any
 	var err error
@@ -547,7 +590,7 @@ func propAccepted(a *api, f string, b []byte, p any) *propFail {
 		if !a.onCurve(x, y) {
 			return &propFail{a.name + "-" + fmtName(f) + "-accept-offcurve", fmt.Sprintf("accepted (%s,%s) is not on the curve", vh.ZHex(x), vh.ZHex(y)), pcase}
 		}
-		if a.subgroup && !a.inSubgroup(inf, x, y) {
+		if a.subgroup && cofactorAboveOne(a) && !a.inSubgroup(inf, x, y) {
 			return &propFail{a.name + "-" + fmtName(f) + "-accept-nonsubgroup", fmt.Sprintf("accepted (%s,%s) is outside the prime-order subgroup", vh.ZHex(x), vh.ZHex(y)), pcase}
 		}
 	}
@@ -697,11 +740,32 @@ func fieldStrings(fl *fieldAPI, seed int64, n int) (narrow, wide [][]byte) {
 	return
 }
 
+var (
+	res0     *vh.Result
+	perKey   = map[string]int{}
+	phaseT   = map[string]float64{}
+	phaseNow = time.Now()
+)
+
+// report forwards at most a few mismatches per key (one class of input, one finding).
+func report(m vh.Mismatch) {
+	perKey[m.Kind+"/"+m.Key]++
+	if perKey[m.Kind+"/"+m.Key] <= 4 {
+		res0.Mismatch(m)
+	}
+}
+
+func phase(name string) {
+	phaseT[name] += time.Since(phaseNow).Seconds()
+	phaseNow = time.Now()
+}
+
 // ---- main ---------------------------------------------------------------------------------------
 
 func main() {
 	a := vh.ParseArgs()
 	res := vh.NewResult("C13", a.Seed, a.Tier)
+	res0 = res
 	res.Rule = "per curve type and format (compressed/uncompressed/FromAffine/FromAffineX/FromBytes of scalars and base-field elements): encodings of identity, generator multiples, a pseudo-random walk, off-subgroup, small-order and zero-coordinate points; strings of every length 0..2*size+1, every value of the flag-carrying bytes, single-bit flips of valid encodings, coordinates increased by p, random strings with plausible flags. Non-trivial = the string has the right length (gets past the length guard); distinct by case text. Model and implementation must agree on accept/reject, decoded affine value and produced bytes; the property predicate (round trip, injectivity, accepted => on curve / in subgroup by big.Int arithmetic, reserved flags rejected, no panic) is evaluated on the implementation alone."
 	allAPIs = apis()
 	allFields = fields()
@@ -729,9 +793,11 @@ func main() {
 	pointsOf := map[string][]any{}
 
 	for _, ap := range allAPIs {
-		nr, nf, nw := nRandom, nFlip, nWalk
-		if strings.HasPrefix(ap.name, "bls") { // subgroup checks make these decoders ~1 ms
-			nr, nf, nw = nRandom/4, nFlip/3, nWalk/2
+		// subgroup checks make a decoder (and above all its affine model) 10-100x slower
+		cost := costOf(ap)
+		nr, nf, nw := nRandom/cost, nFlip/cost, nWalk
+		if cost >= 8 {
+			nw = nWalk / 2
 		}
 		pts := validPoints(ap, a.Seed, nw)
 		pointsOf[ap.name] = pts
@@ -742,7 +808,7 @@ func main() {
 			for _, p := range pts {
 				res.Count("prop-roundtrip-"+ap.name+"-"+f, fmt.Sprintf("P roundtrip %s %s %s", ap.name, f, safeCanon(ap, p)), true)
 				if pf := propRoundTrip(ap, f, p); pf != nil {
-					res.Mismatch(vh.Mismatch{ID: pf.pcase, Kind: "prop", Key: pf.key, Detail: pf.detail, Case: pf.pcase, PropFail: true, What: "C13_decode_encode_point"})
+					report(vh.Mismatch{ID: pf.pcase, Kind: "prop", Key: pf.key, Detail: pf.detail, Case: pf.pcase, PropFail: true, What: "C13_decode_encode_point"})
 					continue
 				}
 				var b []byte
@@ -758,7 +824,7 @@ func main() {
 					if ap.name == "p256" && f == "c" && (strings.HasPrefix(c, "0,") || strings.HasPrefix(prev, "0,")) {
 						key = "p256-compressed-x0"
 					}
-					res.Mismatch(vh.Mismatch{ID: "inj-" + ap.name + f, Kind: "prop", Key: key, PropFail: true,
+					report(vh.Mismatch{ID: "inj-" + ap.name + f, Kind: "prop", Key: key, PropFail: true,
 						Detail: fmt.Sprintf("two different elements %s and %s share the encoding %s", prev, c, vh.Hex(b)),
 						Case:   fmt.Sprintf("P roundtrip %s %s %s", ap.name, f, c), What: "C13_encode_injective_off_reserved"})
 				}
@@ -766,6 +832,7 @@ func main() {
 			}
 		}
 
+		phase("prop-"+ap.name)
 		// (2) decoders on the adversarial stream: model correspondence + property of accepted strings
 		for _, f := range []string{"c", "u"} {
 			size := ap.csize
@@ -778,7 +845,7 @@ func main() {
 				var err error
 				pk := vh.Safely(func() { p, err = ap.dec(f, b) })
 				if pk != "" {
-					res.Mismatch(vh.Mismatch{ID: line, Kind: "prop", Key: ap.name + "-" + fmtName(f) + "-decode-panic", Detail: "decoder panics: " + pk, Case: line, PropFail: true, What: "decoders never panic"})
+					report(vh.Mismatch{ID: line, Kind: "prop", Key: ap.name + "-" + fmtName(f) + "-decode-panic", Detail: "decoder panics: " + pk, Case: line, PropFail: true, What: "decoders never panic"})
 				}
 				if ap.modelled {
 					cs.add("decode-"+ap.name+"-"+f, line)
@@ -787,18 +854,18 @@ func main() {
 				}
 				if pk == "" && err == nil {
 					if len(b) != size {
-						res.Mismatch(vh.Mismatch{ID: line, Kind: "prop", Key: ap.name + "-" + fmtName(f) + "-length", Detail: fmt.Sprintf("string of length %d accepted (format size %d)", len(b), size), Case: line, PropFail: true, What: "C13_wrong_length_rejected"})
+						report(vh.Mismatch{ID: line, Kind: "prop", Key: ap.name + "-" + fmtName(f) + "-length", Detail: fmt.Sprintf("string of length %d accepted (format size %d)", len(b), size), Case: line, PropFail: true, What: "C13_wrong_length_rejected"})
 						continue
 					}
 					if bad, why := wrongFlags(ap, f, b); bad {
-						res.Mismatch(vh.Mismatch{ID: line, Kind: "prop", Key: ap.name + "-" + fmtName(f) + "-flags", Detail: "accepted although " + why, Case: line, PropFail: true, What: "C13_wrong_flags_rejected"})
+						report(vh.Mismatch{ID: line, Kind: "prop", Key: ap.name + "-" + fmtName(f) + "-flags", Detail: "accepted although " + why, Case: line, PropFail: true, What: "C13_wrong_flags_rejected"})
 					}
 					if pf := propAccepted(ap, f, b, p); pf != nil {
-						res.Mismatch(vh.Mismatch{ID: line, Kind: "prop", Key: pf.key, Detail: pf.detail, Case: pf.pcase, PropFail: true, What: "C13_decoded_on_curve / C13_decoded_in_subgroup"})
+						report(vh.Mismatch{ID: line, Kind: "prop", Key: pf.key, Detail: pf.detail, Case: pf.pcase, PropFail: true, What: "C13_decoded_on_curve / C13_decoded_in_subgroup"})
 					}
 					// the decoded element re-encodes to a string that decodes to it again
 					if pf := propRoundTrip(ap, f, p); pf != nil && !strings.HasSuffix(pf.key, "-x0") && !strings.HasSuffix(pf.key, "-order2") {
-						res.Mismatch(vh.Mismatch{ID: line, Kind: "prop", Key: pf.key, Detail: "after decoding " + vh.Hex(b) + ": " + pf.detail, Case: pf.pcase, PropFail: true, What: "C13_decode_encode_point"})
+						report(vh.Mismatch{ID: line, Kind: "prop", Key: pf.key, Detail: "after decoding " + vh.Hex(b) + ": " + pf.detail, Case: pf.pcase, PropFail: true, What: "C13_decode_encode_point"})
 					}
 					// FromBytes / UnmarshalBinary / CBOR agree with the format decoder
 					if f == "c" {
@@ -815,6 +882,7 @@ func main() {
 			}
 		}
 
+		phase("dec-"+ap.name)
 		// (3) affine constructors
 		if ap.modelled {
 			r := vh.NewRng(a.Seed, "C13", "affine-"+ap.name, 0)
@@ -849,6 +917,7 @@ func main() {
 		}
 	}
 
+	phase("affine")
 	// (4) scalars and base-field elements
 	for _, fl := range allFields {
 		narrow, wide := fieldStrings(fl, a.Seed, nField)
@@ -857,11 +926,11 @@ func main() {
 			if v, err := fl.fromBytes(b); err == nil {
 				want := mod(beInt(b), fl.q)
 				if v.Cmp(want) != 0 || len(b) != fl.size {
-					res.Mismatch(vh.Mismatch{ID: fl.name, Kind: "prop", Key: fl.name + "-frombytes-value", PropFail: true, Detail: fmt.Sprintf("FromBytes(%s) = %s, bytes mod order = %s", vh.Hex(b), vh.ZHex(v), vh.ZHex(want)), Case: "F " + fl.name + " " + vh.Hex(b), What: "C13_field_decode_reduces"})
+					report(vh.Mismatch{ID: fl.name, Kind: "prop", Key: fl.name + "-frombytes-value", PropFail: true, Detail: fmt.Sprintf("FromBytes(%s) = %s, bytes mod order = %s", vh.Hex(b), vh.ZHex(v), vh.ZHex(want)), Case: "F " + fl.name + " " + vh.Hex(b), What: "C13_field_decode_reduces"})
 				}
 				cs.add("field-bytes-"+fl.name, "FE "+fl.name+" "+vh.ZHex(v))
 				if e, err := fl.encode(v); err != nil || beInt(e).Cmp(v) != 0 || len(e) != fl.size {
-					res.Mismatch(vh.Mismatch{ID: fl.name, Kind: "prop", Key: fl.name + "-bytes-roundtrip", PropFail: true, Detail: "Bytes/FromBytes round trip fails for " + vh.ZHex(v), Case: "FE " + fl.name + " " + vh.ZHex(v), What: "C13_field_roundtrip"})
+					report(vh.Mismatch{ID: fl.name, Kind: "prop", Key: fl.name + "-bytes-roundtrip", PropFail: true, Detail: "Bytes/FromBytes round trip fails for " + vh.ZHex(v), Case: "FE " + fl.name + " " + vh.ZHex(v), What: "C13_field_roundtrip"})
 				}
 			}
 		}
@@ -870,20 +939,26 @@ func main() {
 			if v, err := fl.fromWide(b); err == nil {
 				want := mod(beInt(b), fl.q)
 				if v.Cmp(want) != 0 {
-					res.Mismatch(vh.Mismatch{ID: fl.name, Kind: "prop", Key: fl.name + "-fromwide-value", PropFail: true, Detail: fmt.Sprintf("FromWideBytes(%s) = %s, bytes mod order = %s", vh.Hex(b), vh.ZHex(v), vh.ZHex(want)), Case: "W " + fl.name + " " + vh.Hex(b), What: "C13_field_decode_reduces"})
+					report(vh.Mismatch{ID: fl.name, Kind: "prop", Key: fl.name + "-fromwide-value", PropFail: true, Detail: fmt.Sprintf("FromWideBytes(%s) = %s, bytes mod order = %s", vh.Hex(b), vh.ZHex(v), vh.ZHex(want)), Case: "W " + fl.name + " " + vh.Hex(b), What: "C13_field_decode_reduces"})
 				}
 			}
 		}
 	}
 
+	phase("fields")
 	// (5) GT
 	checkGt(res, a.Seed, nRandom/8)
 
 	// (6) FromAffineX of the subgroup-typed pairing groups
 	checkAffineXSubgroup(res, a.Seed)
 
+	phase("gt+affinex")
+	if d := os.Getenv("C13_DUMP"); d != "" {
+		os.WriteFile(d, []byte(strings.Join(cs.lines, "\n")+"\n"), 0o644)
+	}
 	// model correspondence over all collected lines
 	out, err := vh.Driver(a.Driver, cs.lines)
+	phase("driver")
 	if err != nil {
 		fmt.Fprintln(os.Stderr, err)
 		os.Exit(3)
@@ -901,7 +976,13 @@ func main() {
 				m.PropFail = true
 				m.Detail += " ; property: " + pf.detail
 			}
-			res.Mismatch(m)
+			report(m)
+		}
+	}
+	phase("impl-eval")
+	if os.Getenv("C13_TIMING") != "" {
+		for k, v := range phaseT {
+			fmt.Fprintf(os.Stderr, "%-20s %.1fs\n", k, v)
 		}
 	}
 	sort.Strings(res.Notes)
@@ -1062,26 +1143,30 @@ func checkWrappers(res *vh.Result, a *api, b []byte, p any) {
 	line := fmt.Sprintf("D %s b %s", a.name, vh.Hex(b))
 	q, err := a.dec("b", b)
 	if err != nil || !a.equal(q, p) {
-		res.Mismatch(vh.Mismatch{ID: line, Kind: "prop", Key: a.name + "-frombytes-differs", PropFail: true, Detail: "FromBytes differs from FromCompressed", Case: line, What: "wrappers validate like the constructor"})
+		report(vh.Mismatch{ID: line, Kind: "prop", Key: a.name + "-frombytes-differs", PropFail: true, Detail: "FromBytes differs from FromCompressed", Case: line, What: "wrappers validate like the constructor"})
 	}
 	if u, ok := a.fresh().(binI); ok {
 		var e error
 		pk := vh.Safely(func() { e = u.UnmarshalBinary(b) })
 		if pk != "" || e != nil || !a.equal(u, p) {
-			res.Mismatch(vh.Mismatch{ID: line, Kind: "prop", Key: a.name + "-unmarshalbinary-differs", PropFail: true, Detail: "UnmarshalBinary differs from FromCompressed " + pk, Case: line, What: "wrappers validate like the constructor"})
+			report(vh.Mismatch{ID: line, Kind: "prop", Key: a.name + "-unmarshalbinary-differs", PropFail: true, Detail: "UnmarshalBinary differs from FromCompressed " + pk, Case: line, What: "wrappers validate like the constructor"})
 		}
 	}
 	if m, ok := p.(cborI); ok {
 		var data []byte
 		var e error
 		if pk := vh.Safely(func() { data, e = m.MarshalCBOR() }); pk != "" || e != nil {
-			res.Mismatch(vh.Mismatch{ID: line, Kind: "prop", Key: a.name + "-cbor-marshal", PropFail: true, Detail: "MarshalCBOR fails " + pk, Case: line, What: "CBOR round trip"})
+			key := a.name + "-cbor-marshal"
+			if isOrder2(a, p) {
+				key = a.name + "-uncompressed-order2-panic"
+			}
+			report(vh.Mismatch{ID: line, Kind: "prop", Key: key, PropFail: true, Detail: "MarshalCBOR of the element decoded from this string fails/panics: " + strings.TrimSpace(pk), Case: line, What: "CBOR round trip / never panics"})
 			return
 		}
 		u := a.fresh().(cborI)
 		pk := vh.Safely(func() { e = u.UnmarshalCBOR(data) })
 		if pk != "" || e != nil || !a.equal(u, p) {
-			res.Mismatch(vh.Mismatch{ID: line, Kind: "prop", Key: a.name + "-cbor-roundtrip", PropFail: true, Detail: "CBOR round trip fails " + pk, Case: line, What: "CBOR round trip"})
+			report(vh.Mismatch{ID: line, Kind: "prop", Key: a.name + "-cbor-roundtrip", PropFail: true, Detail: "CBOR round trip fails " + pk, Case: line, What: "CBOR round trip"})
 		}
 	}
 }
@@ -1091,13 +1176,13 @@ func checkWrappers(res *vh.Result, a *api, b []byte, p any) {
 func checkWrappersReject(res *vh.Result, a *api, b []byte) {
 	line := fmt.Sprintf("D %s b %s", a.name, vh.Hex(b))
 	if _, err := a.dec("b", b); err == nil {
-		res.Mismatch(vh.Mismatch{ID: line, Kind: "prop", Key: a.name + "-frombytes-differs", PropFail: true, Detail: "FromBytes accepts what FromCompressed rejects", Case: line, What: "wrappers validate like the constructor"})
+		report(vh.Mismatch{ID: line, Kind: "prop", Key: a.name + "-frombytes-differs", PropFail: true, Detail: "FromBytes accepts what FromCompressed rejects", Case: line, What: "wrappers validate like the constructor"})
 	}
 	if u, ok := a.fresh().(binI); ok {
 		var e error
 		pk := vh.Safely(func() { e = u.UnmarshalBinary(b) })
 		if pk != "" || e == nil {
-			res.Mismatch(vh.Mismatch{ID: line, Kind: "prop", Key: a.name + "-unmarshalbinary-differs", PropFail: true, Detail: "UnmarshalBinary accepts what FromCompressed rejects " + pk, Case: line, What: "wrappers validate like the constructor"})
+			report(vh.Mismatch{ID: line, Kind: "prop", Key: a.name + "-unmarshalbinary-differs", PropFail: true, Detail: "UnmarshalBinary accepts what FromCompressed rejects " + pk, Case: line, What: "wrappers validate like the constructor"})
 		}
 	}
 	if a.kind == 'm' || len(b) != a.csize {
@@ -1121,7 +1206,7 @@ func checkWrappersReject(res *vh.Result, a *api, b []byte) {
 	var e error
 	pk := vh.Safely(func() { e = u.UnmarshalCBOR(spliced) })
 	if pk != "" || e == nil {
-		res.Mismatch(vh.Mismatch{ID: line, Kind: "prop", Key: a.name + "-cbor-differs", PropFail: true, Detail: "UnmarshalCBOR accepts an inner string that FromCompressed rejects " + pk, Case: line, What: "wrappers validate like the constructor"})
+		report(vh.Mismatch{ID: line, Kind: "prop", Key: a.name + "-cbor-differs", PropFail: true, Detail: "UnmarshalCBOR accepts an inner string that FromCompressed rejects " + pk, Case: line, What: "wrappers validate like the constructor"})
 	}
 }
 
@@ -1142,7 +1227,7 @@ func checkGt(res *vh.Result, seed int64, n int) {
 		res.Count("gt-roundtrip", line, true)
 		y, err := gt.FromBytes(b)
 		if err != nil || !y.Equal(x) {
-			res.Mismatch(vh.Mismatch{ID: fmt.Sprintf("gt%d", i), Kind: "prop", Key: "blsgt-roundtrip", PropFail: true, Detail: "GT element does not survive Bytes/FromBytes", Case: line, What: "C13_decode_encode_point (GT)"})
+			report(vh.Mismatch{ID: fmt.Sprintf("gt%d", i), Kind: "prop", Key: "blsgt-roundtrip", PropFail: true, Detail: "GT element does not survive Bytes/FromBytes", Case: line, What: "C13_decode_encode_point (GT)"})
 		}
 		for _, l := range []int{0, 1, len(b) - 1, len(b) + 1, 2 * len(b)} {
 			c := make([]byte, l)
@@ -1150,7 +1235,7 @@ func checkGt(res *vh.Result, seed int64, n int) {
 			var err error
 			pk := vh.Safely(func() { _, err = gt.FromBytes(c) })
 			if pk != "" || err == nil {
-				res.Mismatch(vh.Mismatch{ID: fmt.Sprintf("gtlen%d", l), Kind: "prop", Key: "blsgt-length", PropFail: true, Detail: fmt.Sprintf("length %d accepted or panics %s", l, pk), Case: "G " + vh.Hex(c), What: "C13_wrong_length_rejected"})
+				report(vh.Mismatch{ID: fmt.Sprintf("gtlen%d", l), Kind: "prop", Key: "blsgt-length", PropFail: true, Detail: fmt.Sprintf("length %d accepted or panics %s", l, pk), Case: "G " + vh.Hex(c), What: "C13_wrong_length_rejected"})
 			}
 		}
 	}
@@ -1180,11 +1265,11 @@ func checkGt(res *vh.Result, seed int64, n int) {
 		var x *bls12381.GtElement
 		var err error
 		if pk := vh.Safely(func() { x, err = gt.FromBytes(b) }); pk != "" {
-			res.Mismatch(vh.Mismatch{ID: fmt.Sprintf("gtp%d", i), Kind: "prop", Key: "blsgt-panic", PropFail: true, Detail: pk, Case: line, What: "decoders never panic"})
+			report(vh.Mismatch{ID: fmt.Sprintf("gtp%d", i), Kind: "prop", Key: "blsgt-panic", PropFail: true, Detail: pk, Case: line, What: "decoders never panic"})
 			continue
 		}
 		if err == nil && !member(x) {
-			res.Mismatch(vh.Mismatch{ID: fmt.Sprintf("gtm%d", i), Kind: "prop", Key: "blsgt-frombytes-nonmember", PropFail: true,
+			report(vh.Mismatch{ID: fmt.Sprintf("gtm%d", i), Kind: "prop", Key: "blsgt-frombytes-nonmember", PropFail: true,
 				Detail: "Gt.FromBytes accepts a string that does not denote an element of the order-r target group (x^r != 1; the all-zero string is not even invertible)", Case: line, What: "C13_decoded_in_subgroup (GT)"})
 		}
 	}
@@ -1206,7 +1291,7 @@ func checkAffineXSubgroup(res *vh.Result, seed int64) {
 			}
 			_, px, py, _, _ := a.coords(p)
 			if !a.inSubgroup(false, px, py) {
-				res.Mismatch(vh.Mismatch{ID: line, Kind: "prop", Key: name + "-fromaffinex-nonsubgroup", PropFail: true,
+				report(vh.Mismatch{ID: line, Kind: "prop", Key: name + "-fromaffinex-nonsubgroup", PropFail: true,
 					Detail: fmt.Sprintf("FromAffineX returns (%s,%s) which is on the curve but outside the prime-order subgroup (FromAffine and the byte decoders check membership)", vh.ZHex(px), vh.ZHex(py)),
 					Case:   line, What: "C13_decoded_in_subgroup"})
 			}
@@ -1244,7 +1329,7 @@ func replay(a vh.Args, res *vh.Result) {
 				}
 			}
 			if pf != nil {
-				res.Mismatch(vh.Mismatch{ID: "replay", Kind: "prop", Key: pf.key, Detail: pf.detail, Case: c, PropFail: true})
+				report(vh.Mismatch{ID: "replay", Kind: "prop", Key: pf.key, Detail: pf.detail, Case: c, PropFail: true})
 			}
 		case "G":
 			res.Note("GT case: re-run the check with the same seed")
@@ -1261,7 +1346,7 @@ func replay(a vh.Args, res *vh.Result) {
 					m.PropFail = true
 					m.Detail += " ; property: " + pf.detail
 				}
-				res.Mismatch(m)
+				report(m)
 			}
 		}
 	}
